@@ -26,6 +26,9 @@ THEOREMS = [
     "replay_append_prefix", "replay_append_txn",
     "crash_atomic_partial", "crash_atomic_unsound",
     "crash_durable", "recover_idempotent_partial",
+    "recover_after_rename", "recover_idempotent", "recover_recover",
+    "vacuum_crash_harmless",
+    "lost_rename_right_after_recovery", "lost_rename_durable_unsound",
     "post_recovery_accepts_insert", "post_recovery_accepts_unsound",
 ]
 
@@ -81,7 +84,7 @@ def canon_impl_steps(steps, dvmap):
 def sort_dv_runs(steps):
     out, run = [], []
     for s in steps + [None]:
-        if s is not None and s.startswith("create dv/"):
+        if s is not None and (s.startswith("create dv/") or s.startswith("rmdir ")):
             run.append(s)
         else:
             out += sorted(run)
@@ -106,7 +109,7 @@ def canon_model_steps(steps):
 
 def parse_model(lines):
     """-> {"steps": {i: [..]}, "V": {(i,k): (verdict, orph, rr)}, "P":…, "C": {(i,k,c):…}, "T": {(i,k): verdict}}"""
-    m = {"steps": {}, "V": {}, "P": {}, "C": {}, "T": {}}
+    m = {"steps": {}, "V": {}, "P": {}, "C": {}, "T": {}, "L": {}}
     for l in lines:
         t = l.split(" ")
         if t[0] == "S":
@@ -115,6 +118,8 @@ def parse_model(lines):
             m[t[0]][(int(t[1]), int(t[2]))] = (t[4], t[5], t[6])
         elif t[0] == "C":
             m["C"][(int(t[1]), int(t[2]), int(t[3]))] = (t[4], t[5], t[6])
+        elif t[0] == "L":
+            m["L"][int(t[1])] = t[2]
         elif t[0] == "T":
             m["T"][(int(t[1]), int(t[2]))] = (t[3], "-", "-")
     return m
@@ -159,13 +164,16 @@ def model_for_image(img, m):
     return None
 
 
-def oracle(img):
-    """Model-free verdict on one crash image -> [(sig, what)]"""
+def oracle(img, model_reason=""):
+    """Model-free verdict on one crash image -> [(sig, what)].  `model_reason` (the model's reason
+    tag for an open failure) only selects the signature of a failure the implementation showed."""
     out = []
     where = "%s of `%s` (%s%s)" % (img["name"], img["sql"], img["kind"], (" %s byte %d/%d" % (img["file"], img["j"], img["len"])) if img["file"] else "")
     if img["class"] != "ok":
         if img["kind"] == "append-prefix" and img["file"] == "manifest.json" and "JsonDecode" in img["msg"] and "EOF" in img["msg"]:
             out.append(("crash:torn-manifest-append", "manifest.json cut inside a JSON record (%s): reopen fails with %s — database unopenable" % (where, img["msg"].split("\n")[0][:90])))
+        elif "dv-of-dropped-table" in model_reason and "unwrap" in img["msg"]:
+            out.append(("crash:stale-dv-of-dropped-table", "reopen after a crash at %s panics (%s): the manifest still holds an AddDV of a dropped table (compaction never logs DeleteDV; DROP TABLE only deletes DVs of live row-sets)" % (where, img["msg"][:60])))
         else:
             out.append(("crash:open-fails/%s" % img["name"], "reopen after a crash at %s fails: %s %s" % (where, img["class"], img["msg"][:120])))
         return out
@@ -215,7 +223,7 @@ def run(ck):
         return ck.finish(level="proof")
 
     gen = os.path.join(ck.work, "workloads.txt")
-    vlib.sh([vlib.harness_bin("c04"), "gen", str(5 if quick else 12), gen])
+    vlib.sh([vlib.harness_bin("c04"), "gen", str(3 if quick else 12), gen])
     batches = []
     if os.path.exists(CORPUS):
         batches.append(run_workloads(ck, CORPUS, "corpus", not quick))
@@ -225,7 +233,7 @@ def run(ck):
     ivo = {"compared": 0, "disagree": 0, "known": 0}
     mvo = {"compared": 0, "disagree": 0}
     dist = {"points": collections.Counter(), "kinds": collections.Counter(), "verdicts": collections.Counter(),
-            "stmt_kinds": collections.Counter(), "recrash": 0, "followups": collections.Counter(), "workloads": 0, "skipped": 0}
+            "stmt_kinds": collections.Counter(), "lost_rename": collections.Counter(), "recrash": 0, "followups": collections.Counter(), "workloads": 0, "skipped": 0}
     nontrivial = set()
     samples = []
     first = None
@@ -234,6 +242,22 @@ def run(ck):
         for r in recs:
             if r["type"] == "skip":
                 dist["skipped"] += 1
+                continue
+            if r["type"] == "reopen-fails":
+                # a clean shutdown + reopen that fails: the model must predict it, and it is a finding
+                m = models.get(r["workload"])
+                mv = (m or {"V": {}})["V"].get((r["stmt"], 0), ("?",))[0]
+                ivo["compared"] += 1
+                ivo["disagree"] += 1
+                mvi["compared"] += 1
+                sig = "crash:stale-dv-of-dropped-table" if "dv-of-dropped-table" in mv and "unwrap" in r["msg"] else "crash:clean-reopen-fails"
+                st = ck.report(sig, "after `%s` a clean reopen fails (%s: %s): compaction never logs DeleteDV for the row-sets it removes and DROP TABLE only deletes the delete vectors of live row-sets, so the manifest keeps an AddDV of the dropped table and bootstrap unwraps a missing table" % ("; ".join(r["stmts"][:r["stmt"]]), r["class"], r["msg"][:80]),
+                               replay={"stmts": r["stmts"], "failing_reopen_at": r["stmt"], "msg": r["msg"], "model": mv})
+                if st == "known":
+                    ivo["known"] += 1
+                if not mv.startswith("open-fails"):
+                    mvi["disagree"] += 1
+                    first = first or ("clean reopen fails on the implementation, model says %s" % mv, {"stmts": r["stmts"]})
                 continue
             m = models.get(r["workload"])
             if m is None:
@@ -252,6 +276,23 @@ def run(ck):
                     if impl != mod:
                         mvi["steps_disagree"] += 1
                         first = first or ("persistence steps of statement %d (`%s`) differ: impl=%s model=%s" % (i, r["stmts"][i] if i >= 0 else "BOOT", impl, mod), {"workload": r["model_ops"], "stmts": r["stmts"]})
+                # the un-fsynced rename, lost after later statements were acknowledged
+                for lr in r.get("lost_rename", []):
+                    ml = m["L"].get(lr["stmt"])
+                    impl = "same" if lr["same"] else ("lost" if lr["class"] == "ok" else "open-fails")
+                    mvi["compared"] += 1
+                    dist["lost_rename"][impl] += 1
+                    if ml is not None and ml.split(":")[0] != impl:
+                        mvi["disagree"] += 1
+                        first = first or ("lost-rename image after statement %d: impl=%s model=%s" % (lr["stmt"], impl, ml), {"workload": r["model_ops"], "stmts": r["stmts"]})
+                    if impl != "same":
+                        ivo["compared"] += 1
+                        ivo["disagree"] += 1
+                        st = ck.report("crash:lost-rename-loses-acked-statements",
+                                       "bootstrap renames manifest.tmp.json over manifest.json and never fsyncs the directory; later statements are appended (and fsynced) to that file. On a file system that drops the un-synced rename at a crash, manifest.json is the old file and everything acknowledged since the last open is in manifest.tmp.json, which the next boot truncates: after `%s` the image (old manifest.json + current one as manifest.tmp.json) reopens to %s" % ("; ".join(r["stmts"][:lr["stmt"] + 1]), lr["dump"]),
+                                       replay={"stmts": r["stmts"][:lr["stmt"] + 1], "dump": lr["dump"], "note": "image synthesised from real snapshots under the assumption that the file system loses the un-fsynced rename"})
+                        if st == "known":
+                            ivo["known"] += 1
                 if any(o != "ok" for o in r["outcomes"]):
                     first = first or ("a workload statement failed in the recording run: %s" % list(zip(r["stmts"], r["outcomes"])), {"workload": r["model_ops"], "stmts": r["stmts"]})
                 continue
@@ -266,7 +307,8 @@ def run(ck):
             nontrivial.add((img["src"], img["workload"], img["point"], img["kind"], img["j"]))
             # ---- oracle
             ivo["compared"] += 1
-            viol = oracle(img)
+            mv = model_for_image(img, m)
+            viol = oracle(img, mv[0] if mv else "")
             if viol:
                 ivo["disagree"] += 1
             replay = {"workload_file_line": img["workload"], "src": img["src"], "stmt": img["stmt"], "sql": img["sql"], "point": img["point"],
@@ -277,7 +319,6 @@ def run(ck):
                 if st == "known":
                     ivo["known"] += 1
             # ---- model vs impl
-            mv = model_for_image(img, m)
             mvi["compared"] += 1
             d = []
             if mv is None:
